@@ -2,6 +2,7 @@ package funcGen
 
 import (
 	"bytes"
+	"errors"
 	"fmt"
 	"github.com/hneemann/parser2"
 	"github.com/hneemann/parser2/listMap"
@@ -1357,7 +1358,22 @@ func (g *FunctionGenerator[V]) genCodeMap(a listMap.ListMap[parser2.AST], gc Gen
 	return
 }
 
+// errWithFunctionDocu marks an error that already lists the available functions.
+type errWithFunctionDocu struct {
+	error
+}
+
+func (e errWithFunctionDocu) Unwrap() error {
+	return e.error
+}
+
 func (g *FunctionGenerator[V]) generateStaticFunctionDocu(err error) error {
+	var has errWithFunctionDocu
+	if errors.As(err, &has) {
+		// The list is added only once. In nested calls like f(1)(2)(3) every
+		// level passes the error of the inner call through this function.
+		return err
+	}
 	type sf struct {
 		name string
 		f    Function[V]
@@ -1375,7 +1391,7 @@ func (g *FunctionGenerator[V]) generateStaticFunctionDocu(err error) error {
 		b.WriteRune('\n')
 		f.f.Description.WriteTo(&b, f.name)
 	}
-	return fmt.Errorf("%w\n\nAvailable functions are:%s", err, b.String())
+	return errWithFunctionDocu{fmt.Errorf("%w\n\nAvailable functions are:%s", err, b.String())}
 }
 
 func (g *FunctionGenerator[V]) GetStaticDocumentation() TypeDocumentation {
